@@ -80,24 +80,49 @@ def seed_for(check, seed, run_index):
     return int.from_bytes(h[:8], "big")
 
 
+def _abs_entry(env, e):
+    s = env.cur.get(e.eid)
+    if s is None:
+        return None
+    if s[0] == "V":
+        sch = s[3]
+        return ("V", sch[0] if sch else None, sch[1] if sch else None, min(len(s[1]), 3), e.role[0], s[2][1] != "None",
+                min(e.depth, 3))
+    if s[0] == "T":
+        kinds = tuple(sorted({(c[3][0] if (c[0] == "V" and c[3]) else None) for c in s[2]}, key=str))
+        return ("T", min(len(s[1]), 4), min(s[3], 3), e.role[0], kinds, min(e.depth, 3))
+    return (s[0],)
+
+
 def _abstract(env, rec, out):
-    items = []
-    for e in env.world.live_entries():
-        s = env.cur.get(e.eid)
-        if s is None:
-            continue
-        if s[0] == "V":
-            sch = s[3]
-            items.append(("V", sch[0] if sch else None, sch[1] if sch else None, min(len(s[1]), 3), e.role[0],
-                          s[2][1] != "None"))
-        elif s[0] == "T":
-            items.append(("T", min(len(s[1]), 3), min(s[3], 3), e.role[0],
-                          tuple(sorted({(c[3][0] if (c[0] == "V" and c[3]) else None) for c in s[2]}, key=str))))
-        else:
-            items.append((s[0],))
-    items.sort(key=repr)
-    key = repr((items, rec["op"], rec.get("key", {}).get("k") if isinstance(rec.get("key"), dict) else None,
-                out["st"], out["exc"]))
+    """abstract state in which the property had something to say: the operation (kind, key
+    form, value form, outcome) together with the abstractions of the objects it involved
+    (class, dtype kind, nullable, length bucket, role, named?, derivation depth) and a
+    coarse picture of the rest of the world (how many tables / views are alive)."""
+    w = env.world
+    names = []
+    for k in ("h", "t", "out", "other"):
+        v = rec.get(k)
+        if isinstance(v, str):
+            names.append(v)
+        elif isinstance(v, dict) and isinstance(v.get("h"), str):
+            names.append(v["h"])
+    if isinstance(rec.get("val"), dict) and isinstance(rec["val"].get("h"), str):
+        names.append(rec["val"]["h"])
+    names.extend(rec.get("hs", []))
+    inv = []
+    seen = set()
+    for n in names:
+        e = w.handles.get(n)
+        if e is not None and e.eid not in seen:
+            seen.add(e.eid)
+            inv.append(_abs_entry(env, e))
+    ntab = sum(1 for e in w.entries.values() if e.is_table)
+    nview = sum(1 for e in w.entries.values() if e.role[0] == "view")
+    key = repr((rec["op"], (rec.get("key") or {}).get("k") if isinstance(rec.get("key"), dict) else None,
+                (rec.get("val") or {}).get("k") if isinstance(rec.get("val"), dict) else None,
+                rec.get("fn"), rec.get("how"), rec.get("what"), rec.get("variant"), bool(rec.get("fault")), (rec.get("vid") or {}).get("p"),
+                out["st"], out["exc"], sorted(inv, key=repr), min(ntab, 3), min(nview, 3)))
     return hashlib.blake2b(key.encode(), digest_size=8).hexdigest()
 
 
